@@ -76,9 +76,10 @@ func newSecuredHub(dir string) (*securedHub, error) {
 		return nil, err
 	}
 	core := security.NewServiceCore(&env)
+	tp := security.NewTokenProviders(env.Logger, security.NewProviderManager(&env, w.Store, env.Logger), core)
 	ws, err := web.NewWebService(&web.ServiceContext{
 		Env: &env, Logger: env.Logger, Statsd: &statsd.NoOpClient{}, SecurityCore: core, DatasetManager: w.Dsm,
-		Store: w.Store, EventBus: server.NoOpBus(), JobsScheduler: w.Sched(), Port: "0",
+		Store: w.Store, EventBus: server.NoOpBus(), JobsScheduler: w.Sched(), Port: "0", TokenProviders: tp,
 	})
 	if err != nil {
 		return nil, err
@@ -255,6 +256,7 @@ func TestAuthz(t *testing.T) {
 			Role string `json:"role"`
 			Acl  []int  `json:"acl"`
 			D    string `json:"d"`
+			List []string `json:"list"`
 		}
 		if err := json.Unmarshal(payload, &c); err != nil {
 			t.Fatal(err)
@@ -298,6 +300,30 @@ func TestAuthz(t *testing.T) {
 			r.Divs = append(r.Divs, Divergence{Kind: "authz", Adapter: "http",
 				Query:    map[string]any{"method": rq.Method, "path": rq.Path, "token": c.Tok, "role": c.Role, "acl": acl},
 				Expected: c.D, Actual: fmt.Sprintf("%s (HTTP %d)", got, code)})
+		} else if got == "served" && rq.Method == "GET" && rq.Path == "/datasets" && code == 200 {
+			// what the list shows: exactly the datasets whose own path the caller may read
+			var rows []struct {
+				Name string `json:"Name"`
+			}
+			_ = json.Unmarshal([]byte(body), &rows)
+			var shown []string
+			seenRow := map[string]bool{}
+			for _, row := range rows {
+				// (a name shown twice is not beyond the grants: compared as a set)
+				if (row.Name == "a" || row.Name == "b") && !seenRow[row.Name] {
+					seenRow[row.Name] = true
+					shown = append(shown, "/datasets/"+row.Name)
+				}
+			}
+			sort.Strings(shown)
+			want := append([]string{}, c.List...)
+			sort.Strings(want)
+			sum.Checks++
+			if fmt.Sprint(shown) != fmt.Sprint(want) {
+				r.Divs = append(r.Divs, Divergence{Kind: "authz-list", Adapter: "http",
+					Query:    map[string]any{"method": rq.Method, "path": rq.Path, "token": c.Tok, "role": c.Role, "acl": acl},
+					Expected: want, Actual: shown})
+			}
 		} else if got != "served" && rq.Method != "GET" && len(h.w.Dsm.GetDatasetNames()) != names {
 			r.Divs = append(r.Divs, Divergence{Kind: "authz-effect", Adapter: "http",
 				Query: map[string]any{"method": rq.Method, "path": rq.Path}, Expected: "a refused request has no effect", Actual: "dataset list changed"})
